@@ -292,9 +292,15 @@ Qed.
 Definition sent_tags (ops : list fop) : list Z :=
   flat_map (fun o => match o with FSend _ t => [t] | _ => [] end) ops.
 
-Lemma FInv_step s o : FInv s -> (forall k t, o = FSend k t -> ~ In t (tags (f_sent s))) -> FInv (fstep true s o).
+(* the operations of the theorem: every racing send parks (its node is flagged sleeping for the
+   whole flush).  Sends to a node flagged awake while a flush is in progress (FDirectBegin /
+   FDirectEnd) are outside it: see direct_race_refuted *)
+Definition parks_only (o : fop) : Prop :=
+  match o with FDirectBegin _ _ | FDirectEnd _ => False | _ => True end.
+
+Lemma FInv_step s o : FInv s -> parks_only o -> (forall k t, o = FSend k t -> ~ In t (tags (f_sent s))) -> FInv (fstep true s o).
 Proof.
-  intros Hi Hf. destruct o as [k t|n| |ok].
+  intros Hi Hp Hf. destruct o as [k t|n| |ok|k t|ok]; try contradiction.
   - apply FInv_send; [exact Hi|]. apply (Hf k t). reflexivity.
   - apply FInv_wake. exact Hi.
   - apply FInv_begin. exact Hi.
@@ -302,9 +308,10 @@ Proof.
 Qed.
 
 Lemma sent_step s o :
+  parks_only o ->
   tags (f_sent (fstep true s o)) = tags (f_sent s) ++ match o with FSend _ t => [t] | _ => [] end.
 Proof.
-  destruct o as [k t|n| |ok]; cbn [fstep].
+  intros Hp. destruct o as [k t|n| |ok|k t|ok]; try contradiction; cbn [fstep].
   - cbn. rewrite tags_app. reflexivity.
   - destruct (f_cur s); [rewrite app_nil_r; reflexivity|]. destruct (f_snap s); rewrite app_nil_r; reflexivity.
   - destruct (f_cur s); [rewrite app_nil_r; reflexivity|]. destruct (f_snap s); rewrite app_nil_r; reflexivity.
@@ -313,15 +320,17 @@ Proof.
 Qed.
 
 Theorem FInv_run ops : forall s,
+  Forall parks_only ops ->
   FInv s -> NoDup (tags (f_sent s) ++ sent_tags ops) ->
   FInv (frun true s ops) /\ tags (f_sent (frun true s ops)) = tags (f_sent s) ++ sent_tags ops.
 Proof.
-  induction ops as [|o r IH]; intros s Hi Hn; cbn [frun fold_left sent_tags flat_map].
+  induction ops as [|o r IH]; intros s Hpo Hi Hn; cbn [frun fold_left sent_tags flat_map].
   - split; [exact Hi|rewrite app_nil_r; reflexivity].
-  - assert (Hstep : FInv (fstep true s o)).
-    { apply FInv_step; [exact Hi|]. intros k t ->. cbn in Hn.
+  - inversion Hpo as [|? ? Hp1 Hp2]; subst.
+    assert (Hstep : FInv (fstep true s o)).
+    { apply FInv_step; [exact Hi|exact Hp1|]. intros k t ->. cbn in Hn.
       intros Hin. apply NoDup_remove_2 in Hn. apply Hn. apply in_or_app. left. exact Hin. }
-    specialize (IH (fstep true s o) Hstep). rewrite sent_step in IH.
+    specialize (IH (fstep true s o) Hp2 Hstep). rewrite (sent_step s o Hp1) in IH.
     rewrite <- app_assoc in IH. destruct (IH Hn) as [G1 G2]. split; [exact G1|].
     unfold frun in G2. rewrite G2. reflexivity.
 Qed.
@@ -458,13 +467,13 @@ Qed.
    failing writes), once the flush in progress has finished and every node has
    woken once more, the last value written for each key is the last value sent *)
 Theorem no_lost_update ops nodes :
-  NoDup (sent_tags ops) ->
+  Forall parks_only ops -> NoDup (sent_tags ops) ->
   let s := quiesce true (frun true finit ops) nodes in
   forall k t, In (node_of (k, t)) nodes ->
     last_for k (f_sent s) = Some t -> last_for k (f_written s) = Some t.
 Proof.
-  intros Hn. cbv zeta. intros k t Hnode Hlast.
-  destruct (FInv_run ops finit FInv_init Hn) as [Hi _].
+  intros Hpo Hn. cbv zeta. intros k t Hnode Hlast.
+  destruct (FInv_run ops finit Hpo FInv_init Hn) as [Hi _].
   unfold quiesce in *. destruct (drain_plain _ Hi) as [G1 [G2 G3]]. cbv zeta in *.
   destruct (quiesce_spec nodes _ [] G1 G2 (fun _ _ _ H => H)) as [K1 [K2 [K3 K4]]]. cbv zeta in *.
   cbn [app] in K4.
@@ -477,22 +486,22 @@ Qed.
 (* every write carries a value that was sent, and no value is written more often
    than it was sent (tags are unique per send) *)
 Theorem writes_were_sent ops :
-  NoDup (sent_tags ops) ->
+  Forall parks_only ops -> NoDup (sent_tags ops) ->
   let s := frun true finit ops in
   incl (f_written s) (f_sent s) /\ NoDup (tags (f_written s)).
 Proof.
-  intros Hn. destruct (FInv_run ops finit FInv_init Hn) as [Hi _].
+  intros Hpo Hn. destruct (FInv_run ops finit Hpo FInv_init Hn) as [Hi _].
   split; [apply (fi_written_sent _ Hi)|apply (fi_written_nodup _ Hi)].
 Qed.
 
 (* the same holds at quiescence *)
 Theorem writes_were_sent_quiesced ops nodes :
-  NoDup (sent_tags ops) ->
+  Forall parks_only ops -> NoDup (sent_tags ops) ->
   let s := quiesce true (frun true finit ops) nodes in
   incl (f_written s) (f_sent s) /\ NoDup (tags (f_written s))
   /\ tags (f_sent s) = sent_tags ops.
 Proof.
-  intros Hn. cbv zeta. destruct (FInv_run ops finit FInv_init Hn) as [Hi Hs].
+  intros Hpo Hn. cbv zeta. destruct (FInv_run ops finit Hpo FInv_init Hn) as [Hi Hs].
   unfold quiesce. destruct (drain_plain _ Hi) as [G1 [G2 G3]]. cbv zeta in *.
   destruct (quiesce_spec nodes _ [] G1 G2 (fun _ _ _ H => H)) as [K1 [K2 [K3 K4]]]. cbv zeta in *.
   split; [apply (fi_written_sent _ K1)|]. split; [apply (fi_written_nodup _ K1)|].
@@ -510,6 +519,20 @@ Proof.
   exists [FSend (3, 1, 2) 100; FWake 3; FBegin; FSend (3, 1, 2) 101; FEnd true], [3], (3, 1, 2), 101.
   split; [repeat constructor; cbn; intuition discriminate|].
   split; [left; reflexivity|]. vm_compute. split; [reflexivity|discriminate].
+Qed.
+
+(* OUTSIDE the theorem: a command is parked, the node is flagged awake again (it presented itself),
+   the application sends a newer value — written directly, the write suspends — and the node's
+   wake signal arrives: the flush writes the stale parked value after the newer one.
+   The repaired code (guarded pops on both paths) still does this: a known finding. *)
+Theorem direct_race_refuted :
+  exists ops nodes k t,
+    In (node_of (k, t)) nodes
+    /\ let s := quiesce true (frun true finit ops) nodes in
+       last_for k (f_sent s) = Some t /\ last_for k (f_written s) <> Some t /\ f_buf s = [].
+Proof.
+  exists [FSend (1, 0, 2) 100; FDirectBegin (1, 0, 2) 101; FWake 1; FBegin; FDirectEnd true; FEnd true], [1], (1, 0, 2), 101.
+  split; [left; reflexivity|]. vm_compute. split; [reflexivity|split; [discriminate|reflexivity]].
 Qed.
 
 Example no_lost_update_example :
